@@ -13,8 +13,11 @@ TRUSTED = [
 ]
 
 
+EVID = os.environ.get("VERIF_EVIDENCE_DIR") or os.path.join(VERIF, "evidence")   # seeded-mutation trials write elsewhere
+
+
 def write_replay(pid, name, payload):
-    d = os.path.join(VERIF, "evidence", "replays")
+    d = os.path.join(EVID, "replays")
     os.makedirs(d, exist_ok=True)
     p = os.path.join(d, "%s-%s.json" % (pid, name))
     json.dump(jsonable(payload), open(p, "w"), indent=1)
@@ -39,7 +42,7 @@ def main(argv):
     assert tier in ("quick", "thorough")
     for fn in ("failing-input", "unverified"):
         try:
-            os.remove(os.path.join(VERIF, "evidence", "replays", "%s-%s.json" % (pid, fn)))
+            os.remove(os.path.join(EVID, "replays", "%s-%s.json" % (pid, fn)))
         except OSError:
             pass
     tier = os.environ.get("VERIF_TIER", tier) if os.environ.get("VERIF_TIER") in ("quick", "thorough") else tier
@@ -123,8 +126,8 @@ def main(argv):
     ev = dict(property_id=pid, tier=tier, seed=seed, level="proof", coverage=cov,
               assumptions=getattr(mod, "ASSUMPTIONS", []), wall_s=round(time.time() - t0, 2),
               violations=len(oracle_f) + len(corr_f) + len(broken))
-    os.makedirs(os.path.join(VERIF, "evidence"), exist_ok=True)
-    json.dump(jsonable(ev), open(os.path.join(VERIF, "evidence", pid + ".json"), "w"), indent=1)
+    os.makedirs(EVID, exist_ok=True)
+    json.dump(jsonable(ev), open(os.path.join(EVID, pid + ".json"), "w"), indent=1)
 
     for f in ctx.findings:
         if f.get("status") == "open":
